@@ -163,13 +163,13 @@ class SchemaGen:
             return {"not": {"enum": vals}}
         return {"not": {"type": "string", "enum": vals}}
 
-    def s_scalar(self):
+    def s_scalar(self, no_null=False):
         opts = [("bool", self.s_bool, 1), ("integer", self.s_integer, 3), ("number", self.s_number, 1),
                 ("string", self.s_string, 4), ("string_enum", self.s_string_enum, 2),
                 ("typed_enum", self.s_typed_enum, 1),
                 ("not_enum", self.s_not_enum, 0.5 if self.profile != "F" else 0),
-                ("null", self.s_null, 0.3)]
-        opts = [o for o in opts if self.allowed(o[0])]
+                ("null", self.s_null, 0 if no_null else 0.3)]
+        opts = [o for o in opts if self.allowed(o[0]) and o[2] > 0]
         return self.weighted(opts)()
 
     def weighted(self, opts):
@@ -427,8 +427,8 @@ class SchemaGen:
         if d >= self.max_depth:
             if self.def_pool and self.chance(0.25) and self.allowed("ref"):
                 return self.s_ref()
-            return self.s_scalar()
-        opts = [("scalar", self.s_scalar, 5),
+            return self.s_scalar(no_null)
+        opts = [("scalar", lambda: self.s_scalar(no_null), 5),
                 ("array", lambda: self.s_array(d), 2),
                 ("object", lambda: self.s_object(d), 3),
                 ("oneof_external", lambda: self.s_oneof_external(d), 0.7),
@@ -472,5 +472,8 @@ class SchemaGen:
         self.def_pool = names if self.chance(0.7) else []
         defs = {}
         for nm in names:
-            defs[nm] = self.top_schema()
+            s = self.top_schema()
+            while isinstance(s, dict) and s.get("$ref") == "#/definitions/" + nm:
+                s = self.top_schema()  # a definition that is only a reference to itself is meaningless
+            defs[nm] = s
         return {"definitions": defs}
